@@ -43,6 +43,17 @@ def layouts(w, tier):
           (tail - 2) * w, 3 * w + w.bit_length()]
     tw = [v for v in dict.fromkeys(tw) if v < (1 << w)]
     out['tail'] = ([(0, tail)], [0, 1, 2, 3], tw, {})
+    # an op AT the input bit (ip = 3w+#w, unaligned, spans words 3..5) and right after it
+    in_addr = 3 * w + w.bit_length()
+    off = in_addr & (w - 1)
+    mask = (1 << w) - 1
+    a6 = [0, 1, 2 * w + 1]
+    for T in (in_addr, 2 * w, 4 * w, in_addr + 1):
+        a6 += [(T << off) & mask, T >> (w - off)]
+    a6 = list(dict.fromkeys(a6))
+    for j1 in (in_addr, in_addr + 1):
+        for f0 in (0, 2 * w + 1, in_addr):
+            out[f'in6-{j1 - in_addr}-{f0}'] = ([(0, 6)], [2, 3, 4, 5], a6, {0: f0, 1: j1})
     if tier == 'thorough':
         from fjv.enginecheck import word_alphabet as wa
         a6 = wa(w, 6)
@@ -213,7 +224,7 @@ def main():
         'capped_more_reads_than_bound': total.get('capped_reads', 0),
         'behaviour_histogram': hist,
         'bounds': {'widths': list(WIDTHS), 'horizon_ops': 64, 'max_reads': 3 if args.tier == 'thorough' else 2,
-                   'layouts': sorted(layouts(8, args.tier))},
+                   'layouts': sorted(set(k.split('-')[0] + ('-' + k.split('-')[1] if k.startswith('two') else '') for k in layouts(8, args.tier)))},
         'exhaustive': not missing,
         'traces_validated_against_impl': total.get('cases', 0),
     }
